@@ -164,6 +164,20 @@ func (r *ctlRunner) Cancel() {
 
 func (r *ctlRunner) Finish() {}
 
+// snapshotQ records a quiescent point: the in-flight set and the trace entry are taken under one lock,
+// so that the entry is consistent with its position in the trace
+func (r *ctlRunner) snapshotQ() []int {
+	r.mu.Lock()
+	defer r.mu.Unlock()
+	res := []int{}
+	for i := range r.inflight {
+		res = append(res, i)
+	}
+	sort.Ints(res)
+	r.trace = append(r.trace, []interface{}{"Q", res})
+	return res
+}
+
 func (r *ctlRunner) inflightSet() []int {
 	r.mu.Lock()
 	defer r.mu.Unlock()
@@ -371,7 +385,7 @@ func schedRunOnce(c *schedCase, choices []int) schedRun {
 		if res.QTimeout && len(infl) == 0 {
 			break
 		}
-		record("Q", infl)
+		infl = r.snapshotQ()
 		if c.Cancel == step && !cancelled {
 			record("X")
 			sd.Cancel()
